@@ -238,7 +238,16 @@ func c15(run *core.Run, replay string) {
 	}
 	core.ParallelDo(len(cases), 12, func(i int) {
 		c := cases[i]
-		k, d := runNameCase(c)
+		if core.Hangs() >= 3 {
+			return
+		}
+		g, returned := guarded(func() kd { k, d := runNameCase(c); return kd{k, d, true} })
+		if !returned {
+			run.Eval(1)
+			run.Violate("C15 hang", fmt.Sprintf("%q/%q never returned (60 s, then 180 s)", c.T, c.E), c)
+			return
+		}
+		k, d := g.k, g.d
 		run.Eval(1)
 		if k == "canonical-compress-error" {
 			run.Count("canonical_failed_skipped", 1)
